@@ -13,7 +13,7 @@ for sid in ids:
     d = os.path.join(base, sid)
     meta = json.load(open(os.path.join(d, "meta.json")))
     prop = meta["property"]
-    a = subprocess.run("git -C /repo apply %s/patch.diff" % d, shell=True, stdout=subprocess.PIPE, stderr=subprocess.STDOUT, text=True)
+    a = subprocess.run("git -C /repo apply --3way %s/patch.diff && git -C /repo reset -q" % d, shell=True, stdout=subprocess.PIPE, stderr=subprocess.STDOUT, text=True)
     try:
         if a.returncode != 0:
             results[sid] = {"property": prop, "exit": None, "note": "patch does not apply: " + a.stdout[-200:]}
